@@ -50,6 +50,39 @@ def digest_of(obj):
     ).hexdigest()
 
 
+def run_isolated(mod, rs, i, tier):
+    """One run in a forked child of the worker: whatever the code under test
+    keeps in module globals (memo tables, logging filters, caches) starts from
+    the post-import state in every run, so a run is a function of its seed
+    alone - also for a changed tree - and a replay of one run can reproduce it."""
+    if os.environ.get("VERIF_ISOLATE", "1") == "0":
+        return mod.run_one(rs, i, tier)
+    rfd, wfd = os.pipe()
+    pid = os.fork()
+    if pid == 0:
+        code = 0
+        try:
+            os.close(rfd)
+            try:
+                res = mod.run_one(rs, i, tier)
+            except BaseException as e:  # noqa: BLE001
+                res = {"harness_error": "".join(traceback.format_exception(e))[-4000:]}
+            data = json.dumps(res, default=repr).encode()
+            with os.fdopen(wfd, "wb") as fh:
+                fh.write(data)
+        except BaseException:  # noqa: BLE001
+            code = 3
+        finally:
+            os._exit(code)
+    os.close(wfd)
+    with os.fdopen(rfd, "rb") as fh:
+        data = fh.read()
+    _, status = os.waitpid(pid, 0)
+    if not data:
+        return {"harness_error": f"isolated run died (wait status {status})"}
+    return json.loads(data)
+
+
 def _worker_chunk(args):
     modname, master, tier, idxs, hang_s = args
     import importlib
@@ -61,7 +94,7 @@ def _worker_chunk(args):
         for i in idxs:
             rs = run_seed(master, mod.ID, i)
             try:
-                r = mod.run_one(rs, i, tier)
+                r = run_isolated(mod, rs, i, tier)
             except BaseException as e:  # noqa: BLE001
                 r = {"harness_error": "".join(traceback.format_exception(e))[-4000:]}
             r["i"] = i
